@@ -149,22 +149,22 @@ pub fn append_rule(rule: Arc<Rule>) -> bool {
         }
     }
     let mut placeholder = Vec::new();
-    let new_tcs_of_res = build_resource_circuit_breaker(
+    // same acquisition order as `load_rules`: the breaker map before the breaker rules
+    let mut breaker_map = BREAKER_MAP.write().unwrap();
+    let breaker_rules = BREAKER_RULES.read().unwrap();
+    // the helper moves every reused breaker out of the old list into the new one,
+    // so the new list is the complete set of breakers of the resource
+    let new_cbs_of_res = build_resource_circuit_breaker(
         &rule.resource,
-        BREAKER_RULES.read().unwrap().get(&rule.resource).unwrap(),
-        BREAKER_MAP
-            .write()
-            .unwrap()
+        breaker_rules.get(&rule.resource).unwrap(),
+        breaker_map
             .get_mut(&rule.resource)
             .unwrap_or(&mut placeholder),
     );
-    if !new_tcs_of_res.is_empty() {
-        BREAKER_MAP
-            .write()
-            .unwrap()
-            .entry(rule.resource.clone())
-            .or_default()
-            .push(Arc::clone(&new_tcs_of_res[0]));
+    if new_cbs_of_res.is_empty() {
+        breaker_map.remove(&rule.resource);
+    } else {
+        breaker_map.insert(rule.resource.clone(), new_cbs_of_res);
     }
     true
 }
